@@ -66,7 +66,26 @@ func graphRecord(out io.Writer, args []string) error {
 		for i := range g {
 			g[i] = []int{}
 		}
-		switch rng.Intn(5) {
+		shape := rng.Intn(6)
+		if shape == 5 && *maxN >= 16 { // long enough for information to travel far against the edges' direction
+			n = 14 + rng.Intn(*maxN-13)
+			g = make(graph.IntGraph, n)
+			for i := range g {
+				g[i] = []int{}
+			}
+		}
+		switch shape {
+		case 5: // a two-way chain 1 <-> 2 <-> ... <-> n-1 entered from the root at both ends (and sometimes in the middle): an
+			// irreducible region in which dominator information has to travel backwards over many consecutive retreating
+			// edges - iterative algorithms need about as many sweeps as the chain is long
+			for i := 1; i+1 < n; i++ {
+				g[i] = append(g[i], i+1)
+				g[i+1] = append(g[i+1], i)
+			}
+			g[0] = append(g[0], 1, n-1)
+			if rng.Intn(3) == 0 {
+				g[0] = append(g[0], 1+rng.Intn(n-1))
+			}
 		case 0: // tree-like with a few back and cross edges
 			for v := 1; v < n; v++ {
 				p := rng.Intn(v)
